@@ -46,7 +46,8 @@ def parseLayout (kv : List (String × String)) : Option Layout := do
 def parseFmt : String → Option Fmt
   | "uri" => some .uri | "uripost" => some .uripost | "raw" => some .raw | _ => none
 
-/-- raw: frame hex ↦ canonical text of `http.ReadRequest(frame)` ("!" = ReadRequest fails), computed by the harness -/
+/-- raw: frame hex ↦ canonical text of `raw.DecodeRequest(frame)` = `http.ReadRequest` ("!" = it fails), computed by the harness;
+the provider's `headers` option is NOT in the table: `enrichCanon` applies it -/
 def parseTable (s : String) : List (String × String) :=
   (splitList s ";").filterMap fun e =>
     match e.splitOn ">" with
@@ -58,14 +59,14 @@ def ammoObs (res : List Ammo × Stop) : Option String :=
   (modelObs res).map fun o => obsLine o.1 o.2
 
 /-- raw: requests are delivered until the first frame that `http.ReadRequest` rejects (Acquire returns false) -/
-def rawObs (tbl : List (String × String)) (res : List RawAmmo × Stop) : Option String := do
+def rawObs (cfg : Hdrs) (tbl : List (String × String)) (res : List RawAmmo × Stop) : Option String := do
   let rec go : List RawAmmo → List String → Option (List String × Bool)
     | [], acc => some (acc.reverse, false)
     | a :: r, acc =>
       match lookup tbl (hex a.frame) with
       | none => none
       | some "!" => some (acc.reverse, true)
-      | some c => go r ((c ++ ",t=" ++ hex a.tag) :: acc)
+      | some c => go r ((enrichCanon cfg c ++ ",t=" ++ hex a.tag) :: acc)
   let (reqs, buildErr) ← go res.1 []
   pure (obsLine (if buildErr then "build" else stopName res.2) reqs)
 
@@ -115,7 +116,7 @@ def handleFileCfg (f : Fmt) (cfg : Hdrs) (kv : List (String × String)) (impl : 
       match f with
       | .uri => if known (uriPass file []) then ammoObs (withCfgRes cfg (uriDeliver file k pre)) else none
       | .uripost => if known (uripostPass true file []) then ammoObs (withCfgRes cfg (uripostDeliver true file k pre)) else none
-      | .raw => rawObs tbl (rawDeliver file k pre)      -- the table already carries the `headers` option
+      | .raw => rawObs cfg tbl (rawDeliver file k pre)  -- the table is the library's part (http.ReadRequest); the `headers` option is applied here
     let m := mobs.getD "*"
     match lookup kv "items" with
     | none => (m, if mobs.isSome then "skip:malformed" else "skip:outside-model")
@@ -132,7 +133,7 @@ def handleFileCfg (f : Fmt) (cfg : Hdrs) (kv : List (String × String)) (impl : 
             let strs := fr.mapM fun ft =>
               match lookup tbl (hex ft.frame) with
               | some "!" => none
-              | some c => some (c ++ ",t=" ++ hex ft.tag)
+              | some c => some (enrichCanon cfg c ++ ",t=" ++ hex ft.tag)
               | none => none
             match strs with
             | none => (m, "skip:frame-not-a-request")
